@@ -105,6 +105,12 @@ Definition mstep (tmo_ : Z) (retries_ : nat) (s : mst) (e : tr) : mst :=
   (* a foreign sender gets ERROR 5 and nothing else happens *)
   | MForeign a, TSend t b p =>
       if (b =? a)%N && pkt_eqb p (PError 5) && (t =? m_now s) then mset s MWait (m_now s)
+      else if (b =? client)%N then
+        (* the foreign datagram was treated as if it came from the client *)
+        match p with
+        | PError _ => mfail s "C09:tid_error5"
+        | _ => if pkt_eqb p (m_out s) then mfail s "C02:resend_only_on_timeout" else mfail s "C02:lockstep"
+        end
       else mfail s "C09:tid_error5"
   | MForeign _, _ => mfail s "C09:tid_error5"
   (* after a time-out with tries left: the identical packet again, at once *)
